@@ -67,7 +67,12 @@ func VH_C04A() {
 		vAssume(s != "time" && s != "logger" && s != "level" && s != "msg")
 		attrs = Attrs{NewAttr(s, 1)}
 	}
-	lg.WriteThru(vCtx, InfoLevel, vTime0(), 0, msg, attrs)
+	sevA := InfoLevel
+	if where == 0 {
+		// every severity frames its record the same way (blank messages included)
+		sevA = []Level{InfoLevel, ErrorLevel, OKLevel, FailLevel, Level(77)}[vChoose(5)]
+	}
+	lg.WriteThru(vCtx, sevA, vTime0(), 0, msg, attrs)
 	vAssert(len(rec.evs) == 1, "C04: one record")
 	p := rec.evs[0].P
 	if where == 2 {
